@@ -103,7 +103,7 @@ func runX03(args []string) {
 		}
 		var pm string
 		var pk bool
-		finished := withWatchdog(10*time.Second, func() {
+		finished := withWatchdog(60*time.Second, func() {
 			_, pm, pk = x03call(func() {
 				switch op {
 				case "Add":
